@@ -169,4 +169,66 @@ Section Lemmas.
           -- apply Forall_forall. intros m Hm. apply in_map_iff in Hm. destruct Hm as (y & <- & Hy).
              rewrite Forall_forall in Hl'. apply IHs; [exact Hs|exact (Hl' y Hy)|lia].
   Qed.
+
+  (** every well-formed value has a bound on the lengths of its lists *)
+  Fixpoint vbound (v : value) : nat :=
+    match v with
+    | VLeaf _ => 0
+    | VGroup vs => list_max (map vbound vs)
+    | VOpt None => 0
+    | VOpt (Some x) => vbound x
+    | VList l => Nat.max (length l) (list_max (map vbound l))
+    end.
+
+  Lemma wfn_mono n m : n <= m ->
+    forall s (v : value), wfn V n s v -> wfn V m s v.
+  Proof.
+    intros Hnm.
+    apply (schema_mut (fun s => forall v : value, wfn V n s v -> wfn V m s v)
+                      (fun fs => forall vs : list value, wfn_fields V n fs vs -> wfn_fields V m fs vs)).
+    - intros [x| | |] H; simpl in *; auto.
+    - intros fs IH [|vs| |] H; simpl in *; auto.
+    - intros [|v vs] H; simpl in *; auto.
+    - intros rp s IHs fs IHf [|fv vs] H; destruct rp; simpl in *; try contradiction.
+      + destruct H. split; auto.
+      + destruct fv as [| |[v|]|]; try contradiction; [destruct H; split; auto|auto].
+      + destruct fv as [| | |l]; try contradiction. destruct H as [[Hl Hf] Hvs]. split; [split|auto].
+        * lia.
+        * eapply Forall_impl; [|exact Hf]. auto.
+  Qed.
+
+  Lemma in_list_max x l : In x l -> x <= list_max l.
+  Proof.
+    intros H. assert (Hm : list_max l <= list_max l) by lia.
+    apply list_max_le in Hm. rewrite Forall_forall in Hm. now apply Hm.
+  Qed.
+
+  Lemma list_max_cons a l : list_max (a :: l) = Nat.max a (list_max l).
+  Proof. reflexivity. Qed.
+
+  Lemma wf_wfn : forall s (v : value), wf s v -> wfn V (vbound v) s v.
+  Proof.
+    apply (schema_mut (fun s => forall v : value, wf s v -> wfn V (vbound v) s v)
+                      (fun fs => forall vs : list value, wf_fields fs vs -> wfn_fields V (list_max (map vbound vs)) fs vs)).
+    - intros [x| | |] H; simpl in *; auto.
+    - intros fs IH [|vs| |] H; simpl in H; try contradiction. apply IH. exact H.
+    - intros [|v vs] H; simpl in *; auto.
+    - intros rp s IHs fs IHf [|fv vs] H; destruct rp; simpl in H; try contradiction.
+      + destruct H as [Hv Hvs]. cbn [map]; rewrite list_max_cons. split.
+        * eapply wfn_mono; [|apply IHs; exact Hv]. lia.
+        * apply (wfn_mono (list_max (map vbound vs)) _ (Nat.le_max_r _ _) (Group fs) (VGroup vs)). apply IHf; exact Hvs.
+      + destruct fv as [| |[v|]|]; try contradiction.
+        * destruct H as [Hv Hvs]. cbn [map]; rewrite list_max_cons; cbn [vbound]. split.
+          -- eapply wfn_mono; [|apply IHs; exact Hv]. lia.
+          -- apply (wfn_mono (list_max (map vbound vs)) _ (Nat.le_max_r _ _) (Group fs) (VGroup vs)). apply IHf; exact Hvs.
+        * cbn [map]; rewrite list_max_cons; cbn [vbound].
+          apply (wfn_mono (list_max (map vbound vs)) _ (Nat.le_max_r _ _) (Group fs) (VGroup vs)). apply IHf; exact H.
+      + destruct fv as [| | |l]; try contradiction. destruct H as [Hl Hvs]. cbn [map]; rewrite list_max_cons; cbn [vbound].
+        split; [split|].
+        * lia.
+        * apply Forall_forall. intros y Hy. rewrite Forall_forall in Hl.
+          eapply wfn_mono; [|apply IHs; apply Hl; exact Hy].
+          pose proof (in_list_max (vbound y) (map vbound l) (in_map vbound l y Hy)). lia.
+        * apply (wfn_mono (list_max (map vbound vs)) _ (Nat.le_max_r _ _) (Group fs) (VGroup vs)). apply IHf; exact Hvs.
+  Qed.
 End Lemmas.
